@@ -167,11 +167,18 @@ def check_doc(doc, case):
         src = xmlinfo.parse(xml.replace("\xa0", " "))
     except Exception as e:  # noqa
         raise core.HarnessError(f"generator produced ill-formed XML {xml!r}: {e!r}")
+    # the same string is also normalised as plain text, before or after (alternating): one mode's answer must not be
+    # served for the other
+    text_first = (len(xml) % 2 == 0)
+    if text_first:
+        probs += [dict(p, case=dict(case, xml=xml, text_mode_call="before the XML-mode call")) for p in check_text(xml)]
     try:
         out = normalize(xml, is_xml=True)
     except Exception as e:  # noqa
         bad("normalize_raised", "a document", repr(e), exc=type(e).__name__)
         return probs
+    if not text_first:
+        probs += [dict(p, case=dict(case, xml=xml, text_mode_call="after the XML-mode call")) for p in check_text(xml)]
     try:
         oel = xmlinfo.parse(out)
     except Exception as e:  # noqa
